@@ -299,7 +299,7 @@ Proof.
   specialize (IH rune' st' (S c)). lia.
 Qed.
 
-Lemma decode_rune_pos c l : fst (decode_rune (c :: l)) <> O.
+Lemma decode_rune_pos0 c l : fst (decode_rune (c :: l)) <> O.
 Proof.
   unfold decode_rune. cbn [decode_loop].
   destruct (decode_rune_octet 0 c st_accept) as [st' rune'].
@@ -307,6 +307,8 @@ Proof.
   destruct (st' =? st_reject)%N; [rewrite N.eqb_refl; cbn [fst]; lia|].
   pose proof (decode_loop_ge l rune' st' 1%nat). lia.
 Qed.
+Lemma decode_rune_pos c l : fst (decode_rune_w (c :: l)) <> O.
+Proof. unfold decode_rune_w, rune_window. cbn [firstn]. apply decode_rune_pos0. Qed.
 
 Section Match.
 Variable ucd : ucd_table.
@@ -366,13 +368,13 @@ Proof.
   - (* set *) unfold m_rune. rewrite avail_ok by exact Hs. cbv iota beta. rewrite subject_rest by exact Hs.
     destruct (sr s <? lenN inp)%N eqn:E.
     + replace (1 <=? lenN inp - sr s)%N with true by lia. cbn [andb]. destruct (rest_cons (sr s)) as (c & l & ->); [lia|].
-      pose proof (decode_rune_pos c l) as Hpos. destruct (decode_rune (c :: l)) as [n rune]. cbn [fst] in Hpos.
+      pose proof (decode_rune_pos c l) as Hpos. destruct (decode_rune_w (c :: l)) as [n rune]. cbn [fst] in Hpos.
       destruct n as [|n]; [congruence|]. cbv beta iota. destruct (contains s0 rune); reflexivity.
     + cbn [andb]. rewrite rest_nil by lia. reflexivity.
   - (* class *) unfold m_rune. rewrite avail_ok by exact Hs. cbv iota beta. rewrite subject_rest by exact Hs.
     destruct (sr s <? lenN inp)%N eqn:E.
     + replace (1 <=? lenN inp - sr s)%N with true by lia. cbn [andb]. destruct (rest_cons (sr s)) as (c & l & ->); [lia|].
-      pose proof (decode_rune_pos c l) as Hpos. destruct (decode_rune (c :: l)) as [n rune]. cbn [fst] in Hpos.
+      pose proof (decode_rune_pos c l) as Hpos. destruct (decode_rune_w (c :: l)) as [n rune]. cbn [fst] in Hpos.
       destruct n as [|n]; [congruence|]. cbv beta iota.
       destruct (class_test ucd k penum mask rune) as [[|]|] eqn:Ec; try reflexivity.
       exfalso. unfold class_test in Ec. destruct (query ucd rune) eqn:Q; [discriminate|]. exact (Htot rune Q).
@@ -411,8 +413,8 @@ Proof.
   - destruct (rest i); [discriminate|]. intros [= <-]. lia.
   - destruct (rest i) as [|c l]; [discriminate|]. cbv beta iota zeta. destruct (utf8_match_eol (c :: l) =? 0)%N; [discriminate|]. intros [= <-]. lia.
   - destruct (rest i) as [|c l]; [discriminate|]. destruct (c =? b)%N; [|discriminate]. intros [= <-]. lia.
-  - destruct (rest i) as [|c l]; [discriminate|]. destruct (decode_rune (c :: l)) as [n rune]. destruct (contains s rune); [|discriminate]. intros [= <-]. lia.
-  - destruct (rest i) as [|c l]; [discriminate|]. destruct (decode_rune (c :: l)) as [n rune].
+  - destruct (rest i) as [|c l]; [discriminate|]. destruct (decode_rune_w (c :: l)) as [n rune]. destruct (contains s rune); [|discriminate]. intros [= <-]. lia.
+  - destruct (rest i) as [|c l]; [discriminate|]. destruct (decode_rune_w (c :: l)) as [n rune].
     destruct (class_test ucd k penum mask rune) as [[|]|]; try discriminate. intros [= <-]. lia.
   - destruct (lenN s =? 0)%N; [intros [= <-]; lia|].
     destruct ((i <? lenN inp)%N && (lenN s <=? lenN inp - i)%N && list_eqb (firstnN (lenN s) (rest i)) s); [|discriminate]. intros [= <-]. lia.
